@@ -46,7 +46,7 @@ def judge(ctx):
             ctx.fail("exhaustion-incomplete:" + g, "%s returned %d sequences but not the reference multiset" % (g, len(got)))
 
 
-CFG = G.cfg(aux=True, p_weight=0.35, blocks=("cross", "cross", "multi"))
+CFG = G.cfg(aux=True, p_weight=0.35, blocks=("cross", "cross", "multi", "repeat", "merge", "nest"))
 P = D.DesignProperty(
     "C09", judge,
     rule=("case = generated design spec in the reference domain (<= max_seqs solutions) plus an aux seed choosing the requested count "
